@@ -626,6 +626,21 @@ fn scale(p: P2, k: f64) -> P2 {
     P2 { x: p.x * k, y: p.y * k }
 }
 
+/// the same line given by coefficients whose normal vector has length 1 + delta for a tiny delta (an "already normalised"
+/// shortcut must not keep that scale error); delta = 0 stands for coefficients normalised by the caller
+fn near_unit(ld: LineDef, rng: &mut Rng) -> LineDef {
+    let (p, q) = match ld {
+        LineDef::Points(p, q) => (p, q),
+        other => return other,
+    };
+    let (a0, b0) = (p.y - q.y, q.x - p.x);
+    let len = a0.hypot(b0);
+    let delta = *rng.pick(&[0.0f64, 1e-15, -3e-13, 1e-12, -1e-11, 1e-10, -5e-10, 8e-10, -9.9e-10, 9.9e-10, 2e-9, -1e-8, 1e-7, -1e-6]);
+    let k = (1.0 + delta) / len * if rng.chance(1, 2) { 1.0 } else { -1.0 };
+    let (a, b) = (a0 * k, b0 * k);
+    LineDef::Coef(a, b, -(a * p.x + b * p.y))
+}
+
 const SWEEP: [f64; 25] = [
     0.0, 1e-13, -1e-13, 1e-10 * 0.5, -1e-10 * 0.5, 1e-9, -1e-9, 2e-9, -3e-9, 5e-9, 2e-8, -2e-8, 1e-7, -1e-7, 1e-6, -1e-6, 1e-4, -1e-4, 1e-2, -1e-2, 1.0, -1.0, 3e-8, -5e-7, 7e-5,
 ];
@@ -640,7 +655,25 @@ fn run_real_case(case_seed: u64, rep: &mut Report, verbose: bool) {
         // keep every coordinate of every reported point inside +-1e3
         let tr = P2 { x: rng.f64_range(-300.0, 300.0), y: rng.f64_range(-300.0, 300.0) };
         let place = |p: P2| add(rot(p, ang), tr);
-        match rng.below(8) {
+        match rng.below(9) {
+            8 => {
+                cx.family = "real: very large and very small circle near outer / inner tangency".into();
+                let r1 = rng.f64_range(300.0, 900.0);
+                let r2 = *rng.pick(&[0.01f64, 0.004, 0.002, 0.001, 5e-4, 0.05]);
+                let m = *rng.pick(&[1e-9f64, 2e-9, 3e-9, 5e-9, 1e-8, 1.5e-8, 2e-8, 5e-8, 1e-7, 1e-6, 0.0, 1e-13]) * if rng.chance(3, 4) { -1.0 } else { 1.0 };
+                let outer = rng.chance(1, 2);
+                // crossing side: d slightly below r1 + r2 (outer) or slightly above r1 - r2 (inner)
+                let d = if outer { r1 + r2 + m } else { (r1 - r2) - m };
+                let small_tr = P2 { x: rng.f64_range(-50.0, 50.0), y: rng.f64_range(-50.0, 50.0) };
+                let c1 = small_tr;
+                let c2 = add(rot(P2 { x: d, y: 0.0 }, ang), small_tr);
+                let da = (c1.x - c2.x).hypot(c1.y - c2.y);
+                let m_out = da - (r1 + r2);
+                let m_in = da - (r1 - r2).abs();
+                cx.rep.inc("big_small_circle_pairs");
+                let (ca, ra, cb, rb) = if rng.chance(1, 2) { (c1, r1, c2, r2) } else { (c2, r2, c1, r1) };
+                judge_cc(&mut cx, ca, ra, cb, rb, m_out, m_in, false, false, false, false);
+            }
             0 => {
                 cx.family = "real: random circle and line".into();
                 let c = P2 { x: rng.f64_range(-500.0, 500.0), y: rng.f64_range(-500.0, 500.0) };
@@ -648,7 +681,11 @@ fn run_real_case(case_seed: u64, rep: &mut Report, verbose: bool) {
                 let p = P2 { x: rng.f64_range(-500.0, 500.0), y: rng.f64_range(-500.0, 500.0) };
                 let dir = rot(P2 { x: 1.0, y: 0.0 }, rng.f64_range(0.0, 6.3));
                 let q = add(p, scale(dir, rng.f64_range(1.0, 300.0)));
-                let ld = if rng.chance(1, 2) { LineDef::Points(p, q) } else { LineDef::Points(q, p) };
+                let mut ld = if rng.chance(1, 2) { LineDef::Points(p, q) } else { LineDef::Points(q, p) };
+                if rng.chance(1, 4) {
+                    ld = near_unit(ld, &mut rng);
+                    cx.rep.inc("near_unit_normal_lines");
+                }
                 let m = ld.sdist(c).abs() - r;
                 judge_cl(&mut cx, c, r, ld, m, false);
             }
@@ -663,7 +700,10 @@ fn run_real_case(case_seed: u64, rep: &mut Report, verbose: bool) {
                 let c = place(P2 { x: 0.0, y: 0.0 });
                 let p = place(P2 { x: x1, y: side * (r + m) });
                 let q = place(P2 { x: x2, y: side * (r + m) });
-                let ld = if rng.chance(1, 3) {
+                let ld = if rng.chance(1, 4) {
+                    cx.rep.inc("near_unit_normal_lines");
+                    near_unit(LineDef::Points(p, q), &mut rng)
+                } else if rng.chance(1, 3) {
                     // coefficients from the two points, at an arbitrary scale
                     let k = *rng.pick(&[1.0f64, -2.5, 1e-3, 40.0]);
                     let a = (p.y - q.y) * k;
@@ -735,7 +775,13 @@ fn run_real_case(case_seed: u64, rep: &mut Report, verbose: bool) {
                     // second line through a point near the first line so that the intersection stays in the box
                     let on1 = add(p, scale(u, rng.f64_range(-100.0, 100.0)));
                     let q = add(on1, scale(v, rng.f64_range(-100.0, 100.0)));
-                    let l2 = LineDef::Points(q, add(q, scale(v, rng.f64_range(1.0, 100.0))));
+                    let mut l2 = LineDef::Points(q, add(q, scale(v, rng.f64_range(1.0, 100.0))));
+                    let mut l1 = l1;
+                    if rng.chance(1, 4) {
+                        l1 = near_unit(l1, &mut rng);
+                        l2 = near_unit(l2, &mut rng);
+                        cx.rep.inc("near_unit_normal_lines");
+                    }
                     let inside = on1.x.abs() <= 900.0 && on1.y.abs() <= 900.0;
                     if rng.chance(1, 2) {
                         judge_ll(&mut cx, l1, l2, Some(false), inside);
@@ -756,7 +802,12 @@ fn run_real_case(case_seed: u64, rep: &mut Report, verbose: bool) {
                 // contains
                 let u = place(P2 { x: -10.0, y: 0.0 });
                 let v = place(P2 { x: 35.0, y: 0.0 });
-                let ld = LineDef::Points(u, v);
+                let ld = if rng.chance(1, 4) {
+                    cx.rep.inc("near_unit_normal_lines");
+                    near_unit(LineDef::Points(u, v), &mut rng)
+                } else {
+                    LineDef::Points(u, v)
+                };
                 let off = *rng.pick(&SWEEP);
                 let t = place(P2 { x: rng.f64_range(-100.0, 100.0), y: off });
                 let dist = ld.sdist(t);
